@@ -118,3 +118,18 @@ Lemma predict_with_kept_rng_not_repeatable_refuted :
 Proof.
   exists (Build_est 3 3), [0; 1]. vm_compute. split; congruence.
 Qed.
+
+(* a seed that is dropped when it is falsy (`{..}.items() if value`, `seed or None`): the fit with
+   random_state = 0 reads the world's global generator - two equal-parameter estimators differ -
+   while every other seed still behaves *)
+Lemma truthiness_filter_drops_zero_seed_refuted :
+  exists w1 w2 : world Z,
+    fst (fit_intervals lcg_randint lcg_mk (forwarded false (Some 0)) 2 2 3 20 w1) <>
+    fst (fit_intervals lcg_randint lcg_mk (forwarded false (Some 0)) 2 2 3 20 w2) /\
+    fst (fit_intervals lcg_randint lcg_mk (forwarded false (Some 7)) 2 2 3 20 w1) =
+    fst (fit_intervals lcg_randint lcg_mk (forwarded false (Some 7)) 2 2 3 20 w2) /\
+    fst (fit_intervals lcg_randint lcg_mk (forwarded true (Some 0)) 2 2 3 20 w1) =
+    fst (fit_intervals lcg_randint lcg_mk (forwarded true (Some 0)) 2 2 3 20 w2).
+Proof.
+  exists (Build_world 5), (Build_world 6). vm_compute. repeat split; congruence.
+Qed.
